@@ -96,6 +96,11 @@ pub struct Ctx {
     pub tracing_guard: Option<tracing::subscriber::DefaultGuard>,
     pub table_len: Option<Box<dyn Fn() -> Option<usize>>>,
     pub panics: u64,
+    /// Yield injection at async mutex acquisition (vendor/tokio verif_hook):
+    /// per mille chance and its own PRNG state (xorshift64*).
+    pub yield_permille: u32,
+    pub yield_state: u64,
+    pub yields: u64,
     /// E2: commands from the simulator to the component under test.
     pub comp_tx: Option<::tokio::sync::mpsc::UnboundedSender<(String, u64)>>,
 }
@@ -149,6 +154,9 @@ impl Ctx {
             tracing_guard: None,
             table_len: None,
             panics: 0,
+            yield_permille: 0,
+            yield_state: 0x9E37_79B9_7F4A_7C15,
+            yields: 0,
             comp_tx: None,
         }
     }
@@ -589,4 +597,25 @@ pub fn pin_tracing_interest() {
             tracing::Dispatch::new(AlwaysInterested),
         )
     });
+}
+
+/// The yield oracle installed into tokio's `verif_hook`: a seeded coin.
+pub fn yield_coin() -> bool {
+    try_with(|c| {
+        if c.yield_permille == 0 {
+            return false;
+        }
+        let mut x = c.yield_state;
+        x ^= x >> 12;
+        x ^= x << 25;
+        x ^= x >> 27;
+        c.yield_state = x;
+        let r = x.wrapping_mul(0x2545_F491_4F6C_DD1D) >> 33;
+        let y = (r % 1000) < c.yield_permille as u64;
+        if y {
+            c.yields += 1;
+        }
+        y
+    })
+    .unwrap_or(false)
 }
